@@ -3,12 +3,13 @@
 (* Layer 0 generator: Universe(2), all values of nesting depth <= 2 over   *)
 (* small leaf sets that deliberately contain the confusable pairs (number  *)
 (* 1 / float 1.0 / string "1"; name /a / string "/a"; pair / two-element   *)
-(* list; [1] and the number 65792; empty string / empty list / empty map). *)
+(* list; [1] and the number 65792; empty string / empty list / empty map;  *)
+(* a backslash followed by t / a TAB; 0.0 / -0.0).                         *)
 (* Used by C08 (equality, hash, print), C09 (print/parse) and C07.         *)
 (***************************************************************************)
 EXTENDS Values, Json, SequencesExt
 VARIABLE done
-Leaves == { Num(0), Num(1), Num(-1), Num(65792), Str(""), Str("a"), Str("1"), Str("/a"), Str("a\"b"), Str("two\nlines"),
+Leaves == { Num(0), Num(1), Num(-1), Num(65792), Str(""), Str("a"), Str("1"), Str("/a"), Str("a\"b"), Str("two\nlines"), Str("C:\\temp"), Str("C:\temp"),
             Nm("/a"), Nm("/a/b"), Nm("/1"), <<"y", "a">>, <<"y", "">>, <<"f", "1">>, <<"f", "1.5">>, <<"f", "-0.5">>, <<"f", "0">>, <<"f", "-0">>,
             Tm(0), Tm(1), Du(0), Du(90) }
 Small == { Num(1), Str("a"), Nm("/a"), <<"f", "1">> }
